@@ -305,7 +305,7 @@ def load_findings(prop=None):
     if os.path.exists(p):
         for line in open(p):
             line = line.strip()
-            if not line or line.startswith("#"):
+            if not line or line.startswith("#") or line.startswith("fixed:"):
                 continue
             r = json.loads(line)
             if prop is None or prop in r.get("properties", [r.get("property")]):
